@@ -171,6 +171,12 @@ func c16GenEpoch(p c16Params, dir string) *c16Epoch {
 			e := ipldbindcode.Entry{Kind: 1, NumHashes: 7, Hash: rng.Bytes(32)}
 			entryLinks = append(entryLinks, cidlink.Link{Cid: w.put(e.MarshalCBOR())})
 		}
+		if p.seed%2 == 1 && b%2 == 1 {
+			// a tick entry with the SAME bytes (hence the same CID) in every other block: an archive may hold one object
+			// several times, and every occurrence belongs to its own block's run of sections
+			e := ipldbindcode.Entry{Kind: 1, NumHashes: 12500, Hash: bytes.Repeat([]byte{0x5a}, 32)}
+			entryLinks = append(entryLinks, cidlink.Link{Cid: w.put(e.MarshalCBOR())})
+		}
 		if p.big >= 2 { // a frame on a length-prefix boundary, inside this block's DAG
 			bl := c16Boundary
 			if p.big == 3 {
